@@ -4729,7 +4729,11 @@ class Terminated(Construct):
         self.flagbuildnone = True
 
     def _parse(self, stream, context, path):
-        if stream.read(1):
+        try:
+            data = stream.read(1)
+        except Exception:
+            raise StreamError("stream.read() failed, requested 1 bytes", path=path)
+        if data:
             raise TerminatedError("expected end of stream", path=path)
 
     def _build(self, obj, stream, context, path):
